@@ -18,9 +18,10 @@ import FluteModel.MultiRecv
     lrm <id>                         remove_listener                                               -> ok
     llog <id>                        what listener <id> has been told (also after lrm / drop),
                                      per key in key order: <key>=<+-+...>                          -> ok [k=+-.. ...]
-  Every line may end with annotation tokens `#<key>=<n>`: the implementation side reports how many writer callbacks the
-  call made per session (the real Receiver is opaque to this driver); the model answers WHICH (endpoint, tsi) each of
-  them carries - printed as `cb=<key>,<key>,...` (sorted) after the events, for push / cleanup / drop.
+    cbs #<key>=<n> ...               follows a push / cleanup / drop whose real call made writer callbacks: the
+                                     implementation side reports HOW MANY per session (the real Receiver is opaque to this
+                                     driver); the model re-runs that operation with this environment input and answers
+                                     WHICH (endpoint, tsi) each callback carries                   -> ok cb=<key>,<key>,... (sorted)
 
     race <n>                         n sessions expiring while cleanup runs, then drop            -> opens n closes n
 -/
@@ -39,6 +40,10 @@ structure DState where
   timeout : Option Nat := none
   mr : Option MState := none
   dropped : Bool := false
+  /-- the last push / cleanup / drop line and the receiver before it (for a following `cbs` line) -/
+  lastArgs : List String := []
+  lastMr : Option MState := none
+  lastDropped : Bool := false
 
 def parseEp (s : String) : Option Endpoint :=
   match s.splitOn "/" with
@@ -199,7 +204,7 @@ def stepA (d : DState) (args : List String) (env : Env) : DState × String :=
       | some pkt =>
         let (s', r) := push (actMachine d.timeout) s ep pkt
         let res := if r = .parseErr then "err" else "ok"
-        ({ d with mr := some s' }, withEvents res ((newEvents s s').map showEvent ++ cbToken s s'))
+        ({ d with mr := some s' }, withEvents res ((newEvents s s').map showEvent))
     | _, _, _ => (d, "bad-op")
   | ["tick"] =>
     -- one tick of the harness = strictly more than the session timeout
@@ -210,13 +215,13 @@ def stepA (d : DState) (args : List String) (env : Env) : DState × String :=
     match d.live with
     | some s =>
       let s' := cleanup (actMachine d.timeout) s env
-      ({ d with mr := some s' }, withEvents "ok" (sortStrings ((newEvents s s').map showEvent) ++ cbToken s s'))
+      ({ d with mr := some s' }, withEvents "ok" (sortStrings ((newEvents s s').map showEvent)))
     | none => (d, "bad-op")
   | ["drop"] =>
     match d.live with
     | some s =>
       let s' := drop (actMachine d.timeout) s env
-      ({ d with mr := some s', dropped := true }, withEvents "ok" (sortStrings ((newEvents s s').map showEvent) ++ cbToken s s'))
+      ({ d with mr := some s', dropped := true }, withEvents "ok" (sortStrings ((newEvents s s').map showEvent)))
     | none => (d, "bad-op")
   | ["ladd"] =>
     match d.live with
@@ -245,7 +250,23 @@ def stepA (d : DState) (args : List String) (env : Env) : DState × String :=
 def step (d : DState) (args : List String) : DState × String :=
   let main := args.filter (fun a => !a.startsWith "#")
   match (args.filter (fun a => a.startsWith "#")).mapM parseAnnot with
-  | some env => stepA d main env
   | none => (d, "bad-op")
+  | some env =>
+    match main with
+    | ["cbs"] =>
+      -- re-run the previous operation with the reported environment: same table and events, outputs now populated
+      match d.lastMr with
+      | none => (d, "bad-op")
+      | some before =>
+        let (d', _) := stepA { d with mr := some before, dropped := d.lastDropped } d.lastArgs env
+        match d'.mr with
+        | some after => ({ d' with lastArgs := [], lastMr := none }, withEvents "ok" (cbToken before after))
+        | none => (d, "bad-op")
+    | op :: _ =>
+      let (d', out) := stepA d main env
+      if op = "push" || op = "cleanup" || op = "drop" then
+        ({ d' with lastArgs := main, lastMr := d.mr, lastDropped := d.dropped }, out)
+      else ({ d' with lastArgs := [], lastMr := none }, out)
+    | [] => (d, "bad-op")
 
 end Flute.Drv.Tsi
